@@ -18,6 +18,12 @@ Tie (every run):
   * copies (run_copies): histories assign / load -> revertToDefault / changeDefault -> copy by modified / duplicate / deepcopy /
     pickle (copies of copies) -> WRITE THE COPY in each style -> read back; `isDefault`/`offDefault` against value == default on
     every object; the model follows the same history (copyReg = Settings.__setstate__, revert, changeDefault).
+  * option lists (run_options): settings with options, extended at run time through setting.Option (to empty and non-empty lists,
+    once and repeatedly) - the accept / reject table against the CURRENT list after every addition (Lean optSchema / addOptions);
+    plugins registered with the application contribute options to `neutronicsKernel` (defined with an empty list) and define
+    settings of their own: near-misses refused on assignment, in modified() and on read, legal options round-trip.
+  * copies with an EMPTY modification set (modified(), modified(newSettings={}), caseTitle only, duplicate, deepcopy, pickle): a new
+    object, independent in both directions (values, path, case title) under assignment, revertToDefaults and writeToYamlFile.
   * boundaries (run_boundaries): every setting x near-miss values at its type / range / option boundaries (fractions between a
     bound and the next integer, raw forms that differ from their coerced form, zeros, tiny numbers, lists with one bad element)
     through assignment and through a file; an ACCEPTED value must be written and read back equal and satisfy its own schema;
@@ -1291,7 +1297,7 @@ def run_boundaries(ctx, cs0, ref):
     names = [n for n, _ in cs0.items() if n not in ("versions", "userPlugins") + VERBOSITY_FAMILY]
     cs = settings.Settings()
     fresh = state_map(cs)
-    budget = ctx.pick(18, 80)
+    budget = ctx.pick(12, 80)
     numeric_schema_correspondence(ctx, ref, names)
     for n in names:
         st = ref[n]
@@ -1436,6 +1442,8 @@ def run_options(ctx, cs0, ref):
         cur = list(st.options)
         enforced = bool(st.enforcedOptions)
         cands = list(cur) + option_near_misses(cur or pool[:2], rng)
+        if not enforced and len(cands) > 14:
+            cands = rng.sample(cands, 14)        # nothing is enforced: every string passes the type coercion
         for raw in cands:
             prev = rng.choice(prev_pool) if prev_pool else None
             if prev is not None:
@@ -1479,7 +1487,8 @@ def run_options(ctx, cs0, ref):
     # ---- A: function level
     specs = []
     for n, s_ in ref.items():
-        if s_.options is not None and s_._customSchema is None and isinstance(s_.default, (str, int, float)) and not isinstance(s_.default, bool):
+        auto = isinstance(s_.schema, vol.Schema) and isinstance(s_.schema.schema, (vol.In, vol.Coerce))      # no custom schema
+        if s_.options is not None and auto and isinstance(s_.default, (str, int, float)) and not isinstance(s_.default, bool):
             specs.append((n, s_.default, list(s_.options), bool(s_.enforcedOptions)))
     for k in range(ctx.pick(6, 40)):
         start = rng.sample(pool, rng.choice([0, 0, 1, 3]))
@@ -2324,6 +2333,9 @@ def run(ctx):
     ctx.rule = ("registry: one case per (setting, generated raw value, styles, user-file names) and per random subset of "
                 "settings changed together; reader: per document (old names, unknown names, invalid values, prior state); "
                 "renamer: per generated registry with expiry dates; modified: per (prior state, newSettings, assignment history); "
+                "copies: per history (assign / load / revert / changeDefault / copy route incl. empty modification sets), written and read back; "
+                "boundaries: per (setting, near-miss raw value); options: per (setting, current option list, candidate) after every "
+                "run-time addition, and per (plugin stage, setting, candidate, route); "
                 "distinct = distinct (setting, interned value, styles, user list) tuples; non-trivial = at least one accepted "
                 "assignment or an all-default state")
     with mute():
@@ -2370,6 +2382,13 @@ def search(ctx, disagreements, broken):
                                sub.rng.sample(allnames, 4), f"search:{n}#{i}", via_file=(i % 2 == 0 and n != "userPlugins"),
                                scratch=scratch)
         run_modified(sub, cs0, ref)
+        reqs = [str((d.case if isinstance(d.case, dict) else {}).get("request", "")) for d in disagreements]
+        if any(r.startswith("optsch") for r in reqs):
+            run_options(sub, cs0, ref)
+        if any(r.startswith(("numsch", "numlist")) for r in reqs):
+            run_boundaries(sub, cs0, ref)
+        if any(r.startswith(("dup", "swap", "modified", "revert", "chdef", "isdef", "names")) for r in reqs):
+            run_copies(sub, cs0, ref)
     for f in sub.failures:
         found.append(Failure(f.key, f.clause, f.case, f.observed, f.expected, "found by the directed search"))
     return found
@@ -2401,8 +2420,19 @@ def replay_script(ctx, payload, case):
                 elif op[0] == "copy":
                     how = op[1]
                     before = state_map(obj)
-                    obj2 = obj.modified(newSettings={k: lit(v) for k, v in op[2].items()}) if how == "modified" else obj.duplicate() if how == "duplicate" \
-                        else copy.deepcopy(obj) if how == "deepcopy" else pickle.loads(pickle.dumps(obj))
+                    def mk(o):
+                        return o.modified(newSettings={k: lit(v) for k, v in op[2].items()}) if how == "modified" else \
+                            o.modified(newSettings={}) if how == "modified-empty" else o.modified() if how == "modified-none" else \
+                            o.modified(caseTitle="replayTitle") if how == "modified-title" else o.duplicate() if how == "duplicate" \
+                            else copy.deepcopy(o) if how == "deepcopy" else pickle.loads(pickle.dumps(o))
+                    obj2 = mk(obj)
+                    if obj2 is obj:
+                        sub.fail(f"copy-is-same-object:{how}", "modified copies (also with an empty modification set) are new objects", {"how": how})
+                        o3 = settings.Settings()
+                        probe = mk(o3)
+                        probe["nCycles"] = 7
+                        if o3["nCycles"] == 7:
+                            sub.fail(f"copy-mutation-reaches-other-object:{how}", "modified copies do not affect the original", {"how": how})
                     if state_map(obj) != before:
                         sub.fail("modified-affects-original", "modified copies do not affect the original", {"how": how})
                     lost = [k for k in before if k not in op[2] and state_map(obj2).get(k) != before[k]]
